@@ -237,43 +237,33 @@ Section Generic.
       apply nth_error_Some in H. lia.
   Qed.
 
-  Lemma msd_go_sorts fuel th : forall depth data,
-    (depth <= 65)%nat -> (66 - depth <= fuel)%nat ->
-    Forall ok_bytes data -> common depth data ->
-    StronglySorted leT (msd_go T bytes gtb fuel th depth data) /\
-    Permutation data (msd_go T bytes gtb fuel th depth data).
+  (* bucket 0 (no byte at this depth): all members are the same string *)
+  Lemma bucket0_sorted depth data :
+    common depth data -> StronglySorted leT (msd_bucket T bytes depth 0 data).
   Proof.
-    induction fuel as [|f IH]; intros depth data Hd Hf Hok Hc; [lia|].
-    cbn [msd_go].
-    destruct (Nat.leb_spec (length data) 1) as [H1|H1].
-    { split; [|reflexivity]. destruct data as [|x [|y data]]; cbn [length] in H1; try lia;
-        repeat constructor. }
-    destruct (Nat.leb (length data) th || Nat.ltb 64 depth) eqn:Ecut.
-    { apply isort_g_sorts. exact Hok. }
-    apply orb_false_iff in Ecut as [_ Edepth]. apply Nat.ltb_ge in Edepth.
-    set (piece := fun i => let b := msd_bucket T bytes depth i data in
-                  if Nat.ltb 1 (length b) && Nat.ltb 0 i then msd_go T bytes gtb f th (S depth) b else b).
-    assert (Hpiece : forall i, StronglySorted leT (piece i) /\
-                               Permutation (msd_bucket T bytes depth i data) (piece i)).
-    { intros i. unfold piece. cbn zeta.
-      assert (Hokb : Forall ok_bytes (msd_bucket T bytes depth i data)).
-      { rewrite Forall_forall in *. intros x Hx. apply in_bucket in Hx as [Hx _]. apply Hok; exact Hx. }
-      destruct (Nat.ltb_spec 1 (length (msd_bucket T bytes depth i data))) as [Hlen|Hlen]; cbn [andb].
-      - destruct i as [|b]; cbn [Nat.ltb Nat.leb].
-        + (* end-of-string bucket: all its members are the same string *)
-          split; [|reflexivity]. apply SS_all. intros x y Hx Hy.
-          apply in_bucket in Hx as [Hx Ix]. apply in_bucket in Hy as [Hy Iy].
-          destruct (Hc x y Hx Hy) as [Hfx _]. destruct (Hc y x Hy Hx) as [_ Hly].
-          unfold bucket_idx in Ix, Iy.
-          destruct (nth_error (bytes x) depth) eqn:Ex; [discriminate|].
-          destruct (nth_error (bytes y) depth) eqn:Ey; [discriminate|].
-          unfold leT, lex_le. rewrite (idx_zero_eq depth (bytes x) (bytes y) Hfx Hly Ex Ey).
-          apply lex_leb_refl.
-        + apply IH; [lia|lia|exact Hokb|apply common_bucket; exact Hc].
-      - split; [|reflexivity].
-        destruct (msd_bucket T bytes depth i data) as [|x [|y l]]; cbn [length] in Hlen; try lia;
-          repeat constructor. }
-    split.
+    intros Hc. apply SS_all. intros x y Hx Hy.
+    apply in_bucket in Hx as [Hx Ix]. apply in_bucket in Hy as [Hy Iy].
+    destruct (Hc x y Hx Hy) as [Hfx _]. destruct (Hc y x Hy Hx) as [_ Hly].
+    unfold bucket_idx in Ix, Iy.
+    destruct (nth_error (bytes x) depth) eqn:Ex; [discriminate|].
+    destruct (nth_error (bytes y) depth) eqn:Ey; [discriminate|].
+    unfold leT, lex_le. rewrite (idx_zero_eq depth (bytes x) (bytes y) Hfx Hly Ex Ey).
+    apply lex_leb_refl.
+  Qed.
+  Lemma short_sorted (l : list T) : (length l <= 1)%nat -> StronglySorted leT l.
+  Proof. destruct l as [|x [|y l]]; cbn [length]; intros H; try lia; repeat constructor. Qed.
+  Lemma bucket_ok depth i data : Forall ok_bytes data -> Forall ok_bytes (msd_bucket T bytes depth i data).
+  Proof.
+    intros Hok. rewrite Forall_forall in *. intros x Hx. apply in_bucket in Hx as [Hx _]. apply Hok; exact Hx.
+  Qed.
+
+  (* one level: the pieces (sorted buckets) in index order *)
+  Lemma level_sorts (piece : nat -> list T) depth data :
+    Forall ok_bytes data -> common depth data ->
+    (forall i, StronglySorted leT (piece i) /\ Permutation (msd_bucket T bytes depth i data) (piece i)) ->
+    StronglySorted leT (flat_map piece (seq 0 257)) /\ Permutation data (flat_map piece (seq 0 257)).
+  Proof.
+    intros Hok Hc Hpiece. split.
     - apply SS_flat_map; [intros i; apply Hpiece|].
       intros i j a b Hij Ha Hb.
       apply (Permutation_in _ (Permutation_sym (proj2 (Hpiece i)))) in Ha.
@@ -284,6 +274,28 @@ Section Generic.
       unfold bucket_idx in Ia, Ib. rewrite Ia, Ib. exact Hij.
     - eapply perm_trans; [apply (msd_buckets_perm depth data Hok)|].
       apply flat_map_perm. intros i. apply Hpiece.
+  Qed.
+
+  Lemma msd_go_sorts fuel th : forall depth data,
+    (depth <= 65)%nat -> (66 - depth <= fuel)%nat ->
+    Forall ok_bytes data -> common depth data ->
+    StronglySorted leT (msd_go T bytes gtb fuel th depth data) /\
+    Permutation data (msd_go T bytes gtb fuel th depth data).
+  Proof.
+    induction fuel as [|f IH]; intros depth data Hd Hf Hok Hc; [lia|].
+    cbn [msd_go].
+    destruct (Nat.leb_spec (length data) 1) as [H1|H1].
+    { split; [apply short_sorted; exact H1|reflexivity]. }
+    destruct (Nat.leb (length data) th || Nat.ltb 64 depth) eqn:Ecut.
+    { apply isort_g_sorts. exact Hok. }
+    apply orb_false_iff in Ecut as [_ Edepth]. apply Nat.ltb_ge in Edepth.
+    apply (level_sorts _ depth); [exact Hok|exact Hc|].
+    intros i. cbn zeta.
+    destruct (Nat.ltb_spec 1 (length (msd_bucket T bytes depth i data))) as [Hlen|Hlen]; cbn [andb].
+    - destruct i as [|b]; cbn [Nat.ltb Nat.leb].
+      + split; [apply bucket0_sorted; exact Hc|reflexivity].
+      + apply IH; [lia|lia|apply bucket_ok; exact Hok|apply common_bucket; exact Hc].
+    - split; [apply short_sorted; lia|reflexivity].
   Qed.
 
   Theorem msd_sort_sorts th data :
@@ -331,6 +343,56 @@ Proof.
       destruct Hin1 as [->|Hin1]; [reflexivity|]. destruct Hin2 as [->|Hin2]; [reflexivity|].
       apply lex_leb_antisym; [apply Hx; exact Hin2|apply Hy; exact Hin1]. }
     subst y. f_equal. apply IH; [assumption|assumption|]. eapply Permutation_cons_inv; exact Hp.
+Qed.
+
+(* ---------- RadixSort::sort_bytes ---------- *)
+Lemma fold_max_ge_nat (l : list nat) : forall acc x, In x l \/ (x <= acc)%nat -> (x <= fold_left Nat.max l acc)%nat.
+Proof.
+  induction l as [|y l IH]; intros acc x [Hin|Hle]; cbn [fold_left].
+  - destruct Hin.
+  - exact Hle.
+  - destruct Hin as [->|Hin]; apply IH; [right; lia|left; exact Hin].
+  - apply IH. right. lia.
+Qed.
+Lemma max_len_ge data x : In x data -> (length x <= max_len data)%nat.
+Proof. intros H. apply fold_max_ge_nat. left. apply in_map. exact H. Qed.
+
+Lemma str_gtb_spec : forall x y : list N, str_ok x -> str_ok y -> lex_gtb x y = negb (lex_leb x y).
+Proof. reflexivity. Qed.
+
+Lemma bytes_msd_go_sorts fuel : forall depth data,
+  (forall x, In x data -> (length x < fuel + depth)%nat) ->
+  Forall str_ok data -> common (list N) (fun s => s) depth data ->
+  StronglySorted lex_le (bytes_msd_go fuel depth data) /\ Permutation data (bytes_msd_go fuel depth data).
+Proof.
+  induction fuel as [|f IH]; intros depth data Hlen Hok Hc.
+  - cbn [bytes_msd_go]. split; [|reflexivity]. destruct data as [|x data]; [constructor|].
+    exfalso. destruct (Hc x x) as [_ Hl]; try (left; reflexivity).
+    specialize (Hlen x (or_introl eq_refl)). cbn [Nat.add] in Hlen. lia.
+  - cbn [bytes_msd_go].
+    destruct (Nat.leb_spec (length data) 1) as [H1|H1].
+    { split; [|reflexivity]. destruct data as [|x [|y l]]; cbn [length] in H1; try lia; repeat constructor. }
+    apply (level_sorts (list N) (fun s => s) lex_gtb str_ok (fun x Hx => Hx) str_gtb_spec _ depth); [exact Hok|exact Hc|].
+    intros i. cbn zeta.
+    destruct (Nat.ltb_spec 1 (length (msd_bucket (list N) (fun s => s) depth i data))) as [Hl|Hl]; cbn [andb].
+    + destruct i as [|b]; cbn [Nat.ltb Nat.leb].
+      * split; [apply (bucket0_sorted (list N) (fun s => s)); exact Hc|reflexivity].
+      * apply IH.
+        -- intros x Hx. apply in_bucket in Hx as [Hx _]. specialize (Hlen x Hx). lia.
+        -- apply (bucket_ok (list N) (fun s => s) str_ok). exact Hok.
+        -- apply (common_bucket (list N) (fun s => s) lex_gtb str_ok (fun x Hx => Hx) str_gtb_spec). exact Hc.
+    + split; [|reflexivity].
+      destruct (msd_bucket (list N) (fun s => s) depth i data) as [|x [|y l]]; cbn [length] in Hl; try lia;
+        repeat constructor.
+Qed.
+
+Lemma sort_bytes_sorts data :
+  Forall str_ok data ->
+  StronglySorted lex_le (sort_bytes data) /\ Permutation data (sort_bytes data).
+Proof.
+  intros Hok. unfold sort_bytes. apply bytes_msd_go_sorts; [|exact Hok|].
+  - intros x Hx. apply max_len_ge in Hx. lia.
+  - intros x y _ _. split; [reflexivity|lia].
 Qed.
 
 (* ---------- u32 / u64 ---------- *)
